@@ -96,6 +96,17 @@ class TRepo(ProjectRepo):
         return BuildNumData(*nums)
 
 
+class TRepoCI(TRepo):
+    """a project whose build tags follow its own pattern (the class-level pattern is the customisation point)"""
+    _RE_BUILD_TAG = re.compile(r"ci-(?P<build>\d+)-(?P<branch>.*)-ok$")
+
+
+def repo_for(repo_id, repo, remote='origin'):
+    """the ProjectRepo class matching the tag format used in the mock repository"""
+    cls = TRepoCI if any(t.startswith("ci-") for t in repo.tags) else TRepo
+    return cls(repo_id, repo, remote)
+
+
 class PRepo(TRepo):
     """repository which pins the version of component 'comp' in file DEPENDS"""
     _COMPONENTS_VERSIONS_LOCATIONS = {'comp': 'DEPENDS'}
